@@ -136,6 +136,8 @@ func pricingText(name string) string {
 		return `{"price":"150cent"}`
 	case "fkilo2": // 0.002kilo = 2stake
 		return `{"price":"0.002kilo"}`
+	case "fkilo20": // 0.02kilo = 20stake
+		return `{"price":"0.02kilo"}`
 	case "fkilo1h": // 0.0015kilo = 1.5stake, stored as 1
 		return `{"price":"0.0015kilo"}`
 	case "fyen": // a token the host chain does not know
